@@ -596,3 +596,761 @@ Proof.
     destruct (parse_isd a), (parse_asn b); try discriminate; reflexivity.
   - exfalso. apply split_once_none in Es. apply count_zero in Es. rewrite Es in E. discriminate.
 Qed.
+
+(** ** identifiers: an accepted string normalises to a form of the value *)
+Lemma parse_isd_exact s v : parse_isd s = Ok v -> norm_isd s = display_isd v.
+Proof.
+  unfold parse_isd. destruct (parse_uint 10 U16_MAX s) eqn:E; [|discriminate]. intros [= <-].
+  eapply parse_uint_norm_dec; eauto.
+Qed.
+
+Lemma parse_isd_le s v : parse_isd s = Ok v -> v <= U16_MAX.
+Proof.
+  unfold parse_isd. destruct (parse_uint 10 U16_MAX s) eqn:E; [|discriminate]. intros [= <-].
+  eapply parse_uint_le; eauto.
+Qed.
+
+Lemma numch_no_colon s : forallb numch s = true -> ~ In c_colon s.
+Proof. intros H. eapply forallb_notin; [exact H|reflexivity]. Qed.
+
+Lemma asn_fold_step_some a n g r : asn_fold_step (Some (a, n)) g = Some r ->
+  exists x, parse_uint 16 U16_MAX g = Some x /\
+            r = (N.lor ((N.shiftl a ASN_BITS_PER_PART) mod 2 ^ 64) x, n + 1).
+Proof.
+  unfold asn_fold_step. destruct (parse_uint 16 U16_MAX g) as [x|]; [|discriminate].
+  intros [= <-]. exists x. split; reflexivity.
+Qed.
+
+Lemma asn_fold_none l : fold_left asn_fold_step l None = None.
+Proof. induction l; [reflexivity|exact IHl]. Qed.
+
+Lemma parse_asn_hex_inv s v : parse_uint 10 U64_MAX s = None -> parse_asn s = Ok v ->
+  exists g2 g1 g0 x2 x1 x0,
+    s = g2 ++ c_colon :: g1 ++ c_colon :: g0 /\ ~ In c_colon g2 /\ ~ In c_colon g1 /\
+    parse_uint 16 U16_MAX g2 = Some x2 /\ parse_uint 16 U16_MAX g1 = Some x1 /\
+    parse_uint 16 U16_MAX g0 = Some x0 /\ v = (x2 * 65536 + x1) * 65536 + x0 /\ v <= ASN_MAX.
+Proof.
+  intros Hd. unfold parse_asn. rewrite Hd. change (N.to_nat ASN_NUMBER_PARTS) with 3%nat. cbn [splitn].
+  destruct (split_once c_colon s) as [[g2 r]|] eqn:E1.
+  2:{ cbn [fold_left]. destruct (asn_fold_step (Some (0, 0)) s) as [[val n]|] eqn:E; [|discriminate].
+      apply asn_fold_step_some in E. destruct E as (x & _ & [= -> ->]). discriminate. }
+  destruct (split_once c_colon r) as [[g1 g0]|] eqn:E2.
+  2:{ cbn [fold_left]. destruct (asn_fold_step (Some (0, 0)) g2) as [[val n]|] eqn:E; [|discriminate].
+      apply asn_fold_step_some in E. destruct E as (x & _ & [= -> ->]).
+      destruct (asn_fold_step _ r) as [[val n]|] eqn:E; [|discriminate].
+      apply asn_fold_step_some in E. destruct E as (x' & _ & [= -> ->]). discriminate. }
+  cbn [fold_left].
+  destruct (asn_fold_step (Some (0, 0)) g2) as [[v2 n2]|] eqn:F2; [|discriminate].
+  apply asn_fold_step_some in F2. destruct F2 as (x2 & P2 & [= -> ->]).
+  destruct (asn_fold_step _ g1) as [[v1 n1]|] eqn:F1; [|discriminate].
+  apply asn_fold_step_some in F1. destruct F1 as (x1 & P1 & [= -> ->]).
+  destruct (asn_fold_step _ g0) as [[v0 n0]|] eqn:F0; [|discriminate].
+  apply asn_fold_step_some in F0. destruct F0 as (x0 & P0 & [= -> ->]).
+  change (0 + 1 + 1 + 1 =? ASN_NUMBER_PARTS) with true. cbv iota.
+  pose proof (parse_uint_le _ _ _ _ P2) as B2. pose proof (parse_uint_le _ _ _ _ P1) as B1.
+  pose proof (parse_uint_le _ _ _ _ P0) as B0.
+  rewrite (asn_step_val 0) by (change (2 ^ 32) with 4294967296; lia || exact B2).
+  rewrite (asn_step_val (0 * 65536 + x2)) by (change (2 ^ 32) with 4294967296; unfold U16_MAX in *; lia).
+  rewrite (asn_step_val ((0 * 65536 + x2) * 65536 + x1)) by (change (2 ^ 32) with 4294967296; unfold U16_MAX in *; lia).
+  unfold asn_new_checked. destruct (ASN_MAX <? _) eqn:Em; [discriminate|]. intros [= <-].
+  apply split_once_some in E1. destruct E1 as (-> & N2). apply split_once_some in E2. destruct E2 as (-> & N1).
+  exists g2, g1, g0, x2, x1, x0. repeat (split; [assumption || reflexivity|]). lia.
+Qed.
+
+Lemma asn_parts_of x2 x1 x0 : x2 <= U16_MAX -> x1 <= U16_MAX -> x0 <= U16_MAX ->
+  let v := (x2 * 65536 + x1) * 65536 + x0 in
+  asn_part v 2 = x2 /\ asn_part v 1 = x1 /\ asn_part v 0 = x0.
+Proof.
+  unfold U16_MAX. intros H2 H1 H0. cbv zeta. rewrite !asn_part_eq. unfold ASN_BITS_PER_PART.
+  change (2 ^ (16 * 2)) with 4294967296. change (2 ^ (16 * 1)) with 65536.
+  change (2 ^ (16 * 0)) with 1. change (2 ^ 16) with 65536. lia.
+Qed.
+
+Lemma parse_asn_le s v : parse_asn s = Ok v -> v <= ASN_MAX.
+Proof.
+  intros H. destruct (parse_uint 10 U64_MAX s) as [d|] eqn:Ed.
+  - unfold parse_asn in H. rewrite Ed in H. destruct (d <=? U32_MAX) eqn:E; [|discriminate].
+    injection H as <-. unfold U32_MAX, ASN_MAX in *. lia.
+  - destruct (parse_asn_hex_inv s v Ed H) as (? & ? & ? & ? & ? & ? & H'). apply H'.
+Qed.
+
+Lemma parse_asn_exact s v : parse_asn s = Ok v -> In (norm_asn s) (asn_forms v).
+Proof.
+  intros H. destruct (parse_uint 10 U64_MAX s) as [d|] eqn:Ed.
+  - unfold parse_asn in H. rewrite Ed in H. destruct (d <=? U32_MAX) eqn:E; [|discriminate].
+    injection H as <-. left. unfold norm_asn, display_asn. rewrite E.
+    rewrite split_all_none by (apply numch_no_colon; eapply parse_uint_chars; eauto).
+    symmetry. eapply parse_uint_norm_dec; eauto.
+  - destruct (parse_asn_hex_inv s v Ed H) as (g2 & g1 & g0 & x2 & x1 & x0 & -> & N2 & N1 & P2 & P1 & P0 & Ev & _).
+    right. left. unfold norm_asn.
+    rewrite split_all_app by exact N2. rewrite split_all_app by exact N1.
+    rewrite split_all_none by (apply numch_no_colon; eapply parse_uint_chars; eauto).
+    cbn [map join].
+    rewrite (parse_uint_norm_hex _ _ _ P2), (parse_uint_norm_hex _ _ _ P1), (parse_uint_norm_hex _ _ _ P0).
+    pose proof (asn_parts_of x2 x1 x0 (parse_uint_le _ _ _ _ P2) (parse_uint_le _ _ _ _ P1) (parse_uint_le _ _ _ _ P0)) as Hp.
+    cbv zeta in Hp. rewrite <- Ev in Hp. destruct Hp as (E2 & E1 & E0).
+    unfold display_asn_hex. rewrite E2, E1, E0. cbn [app]. reflexivity.
+Qed.
+
+Lemma parse_ia_inv s v : parse_ia s = Ok v ->
+  exists a b i n, s = a ++ c_dash :: b /\ ~ In c_dash a /\ ~ In c_dash b /\
+    parse_isd a = Ok i /\ parse_asn b = Ok n /\ v = ia_new i n.
+Proof.
+  unfold parse_ia. destruct (negb (N.min 2 (count c_dash s) =? 1)) eqn:E; [discriminate|].
+  destruct (split_once c_dash s) as [[a b]|] eqn:Es; [|discriminate].
+  apply split_once_some in Es. destruct Es as (-> & Na).
+  rewrite count_app, count_cons_eq in E. apply count_zero in Na.
+  assert (Nb : count c_dash b = 0) by lia. apply count_zero in Nb. apply count_zero in Na.
+  destruct (parse_isd a) as [i| |] eqn:Ei; destruct (parse_asn b) as [n| |] eqn:En; try discriminate.
+  intros [= <-]. exists a, b, i, n. repeat (split; [assumption || reflexivity|]). reflexivity.
+Qed.
+
+Lemma parse_ia_exact s v : parse_ia s = Ok v -> In (norm_ia s) (ia_forms v).
+Proof.
+  intros H. destruct (parse_ia_inv s v H) as (a & b & i & n & -> & Na & Nb & Hi & Hn & ->).
+  unfold norm_ia. rewrite split_all_app by exact Na. rewrite split_all_none by exact Nb.
+  destruct (ia_split i n (parse_isd_le _ _ Hi) (parse_asn_le _ _ Hn)) as (E1 & E2).
+  unfold ia_forms. rewrite E1, E2. rewrite (parse_isd_exact _ _ Hi).
+  apply (in_map (fun x => display_isd i ++ [c_dash] ++ x)). apply parse_asn_exact, Hn.
+Qed.
+
+(** * Part D: addresses *)
+
+Lemma str_eqb_eq a b : str_eqb a b = true -> a = b.
+Proof.
+  unfold str_eqb. revert b. induction a as [|x a IH]; intros [|y b] H; try discriminate; [reflexivity|].
+  cbn [list_eqb] in H. apply andb_true_iff in H. destruct H as [E H]. apply N.eqb_eq in E. subst.
+  f_equal. apply IH, H.
+Qed.
+
+(** ** ServiceAddr *)
+Lemma svc_named_cases s : s < 2 ^ 16 -> svc_named s = true ->
+  s = 1 \/ s = 2 \/ s = 16 \/ s = 32769 \/ s = 32770 \/ s = 32784.
+Proof.
+  unfold svc_named, svc_to_anycast, SVC_MCAST, SVC_DS, SVC_CS, SVC_WILDCARD.
+  change (32768 - 1) with (N.ones 15). rewrite N.land_ones. change (2 ^ 15) with 32768. change (2 ^ 16) with 65536.
+  intros H1 H2. lia.
+Qed.
+
+Lemma parse_svc_display s : s < 2 ^ 16 -> svc_named s = true -> parse_svc (display_svc s) = Ok s.
+Proof.
+  intros H1 H2. destruct (svc_named_cases s H1 H2) as [->|[->|[->|[->|[->| ->]]]]]; vm_compute; reflexivity.
+Qed.
+
+Lemma parse_svc_inv s v : parse_svc s = Ok v ->
+  exists name suffix, In name [s_CS; s_DS; s_Wildcard] /\
+    ((s = name /\ suffix = s_A) \/ s = name ++ c_us :: suffix) /\ In suffix [s_A; s_M] /\
+    parse_svc s = Ok v.
+Proof.
+  intros H. pose proof H as H0. unfold parse_svc in H.
+  destruct (split_once c_us s) as [[a b]|] eqn:E.
+  - apply split_once_some in E. destruct E as (-> & _).
+    destruct (str_eqb a s_CS) eqn:E1; [apply str_eqb_eq in E1|
+      destruct (str_eqb a s_DS) eqn:E2; [apply str_eqb_eq in E2|
+        destruct (str_eqb a s_Wildcard) eqn:E3; [apply str_eqb_eq in E3|discriminate]]];
+    (destruct (str_eqb b s_A) eqn:F1; [apply str_eqb_eq in F1|
+       destruct (str_eqb b s_M) eqn:F2; [apply str_eqb_eq in F2|discriminate]]);
+    subst a b; eexists _, _; (split; [|split; [right; reflexivity|split; [|exact H0]]]); cbn; auto.
+  - destruct (str_eqb s s_CS) eqn:E1; [apply str_eqb_eq in E1|
+      destruct (str_eqb s s_DS) eqn:E2; [apply str_eqb_eq in E2|
+        destruct (str_eqb s s_Wildcard) eqn:E3; [apply str_eqb_eq in E3|discriminate]]];
+    subst s; eexists _, s_A; (split; [|split; [left; split; reflexivity|split; [|exact H0]]]); cbn; auto.
+Qed.
+
+(** the nine accepted service strings *)
+Definition svc_strings : list str :=
+  flat_map (fun n => [n; n ++ c_us :: s_A; n ++ c_us :: s_M]) [s_CS; s_DS; s_Wildcard].
+
+Lemma parse_svc_strings s v : parse_svc s = Ok v -> In s svc_strings.
+Proof.
+  intros H. destruct (parse_svc_inv s v H) as (name & suffix & Hn & Hs & Hx & _).
+  cbn [In] in Hn, Hx.
+  destruct Hn as [<-|[<-|[<-|[]]]]; destruct Hx as [<-|[<-|[]]]; destruct Hs as [(-> & _)| ->]; cbn; auto 12.
+Qed.
+
+Lemma parse_svc_exact s v : parse_svc s = Ok v -> norm_svc s = display_svc v.
+Proof.
+  intros H. pose proof (parse_svc_strings s v H) as Hin. cbn in Hin.
+  repeat (destruct Hin as [<-|Hin]; [vm_compute in H; injection H as <-; vm_compute; reflexivity|]).
+  destruct Hin.
+Qed.
+
+Lemma parse_svc_nopanic s : is_panic (parse_svc s) = false.
+Proof.
+  unfold parse_svc. destruct (split_once c_us s) as [[a b]|];
+  repeat match goal with |- context [if ?b then _ else _] => destruct b end; reflexivity.
+Qed.
+
+(** every accepted service string contains 'S' or 'W': it is neither IPv4 nor IPv6 text *)
+Lemma parse_svc_letter s v : parse_svc s = Ok v -> In 83 s \/ In 87 s.
+Proof.
+  intros H. pose proof (parse_svc_strings s v H) as Hin. cbn in Hin.
+  repeat (destruct Hin as [<-|Hin]; [cbn; auto 12|]). destruct Hin.
+Qed.
+
+(** ** first_ok *)
+Lemma first_ok_nopanic {A} (alts : list (res A)) e :
+  Forall (fun a => is_panic a = false) alts -> is_panic (first_ok alts e) = false.
+Proof.
+  induction 1 as [|a l Ha Hl IH]; [reflexivity|]. cbn [first_ok]. destruct a; [reflexivity|exact IH|discriminate].
+Qed.
+Lemma first_ok_in {A} (alts : list (res A)) e v : first_ok alts e = Ok v -> In (Ok v) alts.
+Proof.
+  induction alts as [|a l IH]; [discriminate|]. cbn [first_ok]. destruct a as [x| |].
+  - intros [= ->]. left. reflexivity.
+  - intros H. right. apply IH, H.
+  - discriminate.
+Qed.
+
+(** ** no panic below the socket level, for every oracle *)
+Lemma parse_hk_nopanic O k s : is_panic (parse_hk O k s) = false.
+Proof.
+  destruct k; cbn [parse_hk].
+  - pose proof (parse_svc_nopanic s). destruct (parse_svc s); try discriminate; reflexivity.
+  - destruct (ip4_parse O s); reflexivity.
+  - destruct (ip6_parse O s); reflexivity.
+Qed.
+
+Lemma parse_host_nopanic O s : is_panic (parse_host O s) = false.
+Proof.
+  unfold parse_host. destruct (ip4_parse O s); [reflexivity|]. destruct (ip6_parse O s); [reflexivity|].
+  pose proof (parse_svc_nopanic s). destruct (parse_svc s); try discriminate; reflexivity.
+Qed.
+
+Lemma parse_scion_addr_nopanic O k s : is_panic (parse_scion_addr O k s) = false.
+Proof.
+  unfold parse_scion_addr. destruct (splitn 2 c_comma s) as [|a [|b l]]; try reflexivity.
+  pose proof (parse_ia_nopanic a) as Hi. destruct (parse_ia a); try discriminate; [|reflexivity].
+  cbn [obind]. pose proof (parse_hk_nopanic O k b) as Hk. destruct (parse_hk O k b); try discriminate; reflexivity.
+Qed.
+
+(** ** the bracket slice *)
+Lemma len_app a b : len (a ++ b) = len a + len b.
+Proof. unfold len. rewrite app_length. lia. Qed.
+
+Lemma brackets_inv a : starts_with c_lbr a && ends_with c_rbr a = true ->
+  exists body, a = c_lbr :: body ++ [c_rbr].
+Proof.
+  intros H. apply andb_true_iff in H. destruct H as [H1 H2].
+  destruct a as [|x a]; [discriminate|]. cbn [starts_with] in H1. apply N.eqb_eq in H1. subst x.
+  unfold ends_with in H2. destruct (rev (c_lbr :: a)) as [|y r] eqn:E; [discriminate|].
+  cbn [starts_with] in H2. apply N.eqb_eq in H2. subst y.
+  apply (f_equal (@rev N)) in E. rewrite rev_involutive in E. cbn [rev] in E.
+  destruct (rev r) as [|z r'] eqn:Er.
+  - cbn in E. discriminate.
+  - cbn [app] in E. injection E as <- ->. exists r'. reflexivity.
+Qed.
+
+Lemma nth_error_last {A} (l : list A) x : nth_error (l ++ [x]) (length l) = Some x.
+Proof. induction l; [reflexivity|exact IHl]. Qed.
+
+(** the slice [1..len-1] of a bracketed string is its body, provided the byte after '[' is
+    not a UTF-8 continuation byte *)
+Lemma slice_brackets {E} body :
+  match body with [] => true | b :: _ => (b <? 128) || (192 <=? b) end = true ->
+  @str_slice E (c_lbr :: body ++ [c_rbr]) 1 (len (c_lbr :: body ++ [c_rbr]) - 1) = Ok body.
+Proof.
+  intros Hb. unfold str_slice.
+  assert (Hl : len (c_lbr :: body ++ [c_rbr]) = len body + 2).
+  { unfold len. cbn [length]. rewrite app_length. cbn [length]. lia. }
+  rewrite Hl. replace (len body + 2 - 1) with (len body + 1) by lia.
+  assert (B1 : is_char_boundary (c_lbr :: body ++ [c_rbr]) 1 = true).
+  { unfold is_char_boundary. rewrite Hl. change (N.to_nat 1) with 1%nat. cbn [nth_error].
+    destruct body as [|b t]; cbn [app nth_error].
+    - reflexivity.
+    - rewrite Hb. rewrite !orb_true_r. reflexivity. }
+  assert (B2 : is_char_boundary (c_lbr :: body ++ [c_rbr]) (len body + 1) = true).
+  { unfold is_char_boundary. rewrite Hl.
+    replace (N.to_nat (len body + 1)) with (S (length body)) by (unfold len; lia).
+    cbn [nth_error]. rewrite nth_error_last. rewrite !orb_true_r. reflexivity. }
+  rewrite B1, B2. replace ((1 <=? len body + 1) && (len body + 1 <=? len body + 2)) with true by lia.
+  cbn [andb]. f_equal. change (N.to_nat 1) with 1%nat. cbn [skipn].
+  replace (N.to_nat (len body + 1 - 1)) with (length body) by (unfold len; lia).
+  rewrite firstn_app, Nat.sub_diag, firstn_all. cbn [firstn]. apply app_nil_r.
+Qed.
+
+Lemma slice_brackets_val {E} body x :
+  @str_slice E (c_lbr :: body ++ [c_rbr]) 1 (len (c_lbr :: body ++ [c_rbr]) - 1) = Ok x -> x = body.
+Proof.
+  unfold str_slice. destruct (_ && _); [|discriminate]. intros [= <-].
+  assert (Hl : len (c_lbr :: body ++ [c_rbr]) = len body + 2).
+  { unfold len. cbn [length]. rewrite app_length. cbn [length]. lia. }
+  rewrite Hl. change (N.to_nat 1) with 1%nat. cbn [skipn].
+  replace (N.to_nat (len body + 2 - 1 - 1)) with (length body) by (unfold len; lia).
+  rewrite firstn_app, Nat.sub_diag, firstn_all. cbn [firstn]. apply app_nil_r.
+Qed.
+
+Lemma utf8_ok_second a b r : utf8_ok (a :: b :: r) = true -> a <? 128 = true -> (b <? 128) || (192 <=? b) = true.
+Proof.
+  intros H Ha. cbn [utf8_ok] in H. rewrite Ha in H.
+  destruct r as [|c r']; cbn [utf8_ok] in H;
+  repeat match type of H with context [if ?x then _ else _] => destruct x eqn:? end; try discriminate; lia.
+Qed.
+
+(** no socket parser panics on a (structurally) valid UTF-8 string, for every oracle *)
+Lemma parse_socket_addr_nopanic O k e s : utf8_ok s = true -> is_panic (parse_socket_addr O k e s) = false.
+Proof.
+  intros Hu. unfold parse_socket_addr, parse_socket_addr_gen.
+  destruct (rsplit_once c_colon s) as [[a p]|] eqn:Er; [|reflexivity].
+  unfold bracket_reject. destruct (starts_with c_lbr a && ends_with c_rbr a) eqn:Eb; [|reflexivity].
+  cbn [negb]. destruct (brackets_inv a Eb) as (body & ->).
+  destruct (len (c_lbr :: body ++ [c_rbr]) =? 0) eqn:E0.
+  { unfold len in E0. cbn [length] in E0. lia. }
+  rewrite slice_brackets.
+  - cbn [obind]. pose proof (parse_scion_addr_nopanic O k body) as Hp.
+    destruct (parse_scion_addr O k body) as [[ia h]| |]; try discriminate; [|reflexivity].
+    destruct (parse_uint 10 U16_MAX p); reflexivity.
+  - apply rsplit_once_some in Er. destruct Er as (-> & _).
+    destruct body as [|b t]; [reflexivity|]. cbn [app] in Hu. eapply utf8_ok_second; [exact Hu|reflexivity].
+Qed.
+
+Lemma is_panic_omap {A B} (f : A -> B) (o : res A) : is_panic (omap f o) = is_panic o.
+Proof. destruct o; reflexivity. Qed.
+
+Lemma parse_kind_nopanic O k s : utf8_ok s = true -> is_panic (parse_kind O k s) = false.
+Proof.
+  intros Hu. unfold parse_kind, parse_kind_gen.
+  repeat match goal with |- context [if ?b then _ else _] => destruct b end;
+  rewrite is_panic_omap;
+  first [apply parse_isd_nopanic | apply parse_asn_nopanic | apply parse_ia_nopanic | apply parse_svc_nopanic
+        | apply parse_host_nopanic | apply parse_scion_addr_nopanic
+        | apply (parse_socket_addr_nopanic O _ _ s Hu)
+        | apply first_ok_nopanic; repeat constructor;
+          first [apply parse_scion_addr_nopanic | apply (parse_socket_addr_nopanic O _ _ s Hu)]].
+Qed.
+
+(** ** the address forms, for every IP oracle that behaves like std's parsers and formatters *)
+Section WithIp.
+Context (O : iporacle).
+Hypothesis RT4 : forall a, a < 2 ^ 32 -> ip4_parse O (ip4_display O a) = Some a.
+Hypothesis RT6 : forall a, a < 2 ^ 128 -> ip6_parse O (ip6_display O a) = Some a.
+Hypothesis CH4 : forall s a, ip4_parse O s = Some a -> forallb ip4ch s = true.
+Hypothesis CH6 : forall s a, ip6_parse O s = Some a -> forallb ip6ch s = true /\ has_colon s = true.
+
+Lemma ip_disjoint s a : ip6_parse O s = Some a -> ip4_parse O s = None.
+Proof.
+  intros H6. destruct (ip4_parse O s) as [b|] eqn:H4; [|reflexivity]. exfalso.
+  apply CH6 in H6. destruct H6 as [_ Hc]. apply CH4 in H4.
+  unfold has_colon in Hc. apply existsb_exists in Hc. destruct Hc as (c & Hin & Hc).
+  apply N.eqb_eq in Hc. subst c. rewrite forallb_forall in H4. specialize (H4 _ Hin). discriminate.
+Qed.
+
+Lemma svc_not_ip s v : parse_svc s = Ok v -> ip4_parse O s = None /\ ip6_parse O s = None.
+Proof.
+  intros H. apply parse_svc_letter in H. split.
+  - destruct (ip4_parse O s) as [a|] eqn:E; [|reflexivity]. exfalso. apply CH4 in E.
+    rewrite forallb_forall in E. destruct H as [H|H]; specialize (E _ H); discriminate.
+  - destruct (ip6_parse O s) as [a|] eqn:E; [|reflexivity]. exfalso. apply CH6 in E. destruct E as [E _].
+    rewrite forallb_forall in E. destruct H as [H|H]; specialize (E _ H); discriminate.
+Qed.
+
+Lemma ip4_not_svc s a : ip4_parse O s = Some a -> exists e, parse_svc s = Err e.
+Proof.
+  intros H. pose proof (parse_svc_nopanic s) as Hp. destruct (parse_svc s) as [v|e|] eqn:E; [|eauto|discriminate].
+  apply svc_not_ip in E. destruct E as [E _]. congruence.
+Qed.
+Lemma ip6_not_svc s a : ip6_parse O s = Some a -> exists e, parse_svc s = Err e.
+Proof.
+  intros H. pose proof (parse_svc_nopanic s) as Hp. destruct (parse_svc s) as [v|e|] eqn:E; [|eauto|discriminate].
+  apply svc_not_ip in E. destruct E as [_ E]. congruence.
+Qed.
+
+(** *** hosts *)
+Lemma parse_host_display h : host_wf h = true -> host_named h = true ->
+  parse_host O (display_host O h) = Ok h.
+Proof.
+  intros Hw Hn. unfold parse_host. destruct h as [a|a|s]; cbn [display_host host_wf host_named] in *.
+  - rewrite RT4 by lia. reflexivity.
+  - pose proof (RT6 a ltac:(lia)) as H6. rewrite (ip_disjoint _ _ H6), H6. reflexivity.
+  - pose proof (parse_svc_display s ltac:(lia) Hn) as Hs. destruct (svc_not_ip _ _ Hs) as (-> & ->).
+    rewrite Hs. reflexivity.
+Qed.
+
+Lemma parse_host_exact s h : parse_host O s = Ok h -> norm_host O s = display_host O h.
+Proof.
+  unfold parse_host, norm_host. destruct (ip4_parse O s) as [a|]; [intros [= <-]; reflexivity|].
+  destruct (ip6_parse O s) as [a|]; [intros [= <-]; reflexivity|].
+  destruct (parse_svc s) as [v| |] eqn:E; try discriminate. intros [= <-]. apply parse_svc_exact, E.
+Qed.
+
+(** *** [parse_hk]: the host parser selected by the type *)
+Definition hk_of (h : host) : hkind := match h with HS _ => KSvc | H4 _ => KV4 | H6 _ => KV6 end.
+
+Lemma parse_hk_display h : host_wf h = true -> host_named h = true ->
+  parse_hk O (hk_of h) (display_host O h) = Ok h.
+Proof.
+  intros Hw Hn. destruct h as [a|a|s]; cbn [display_host host_wf host_named hk_of parse_hk] in *.
+  - rewrite RT4 by lia. reflexivity.
+  - rewrite RT6 by lia. reflexivity.
+  - rewrite parse_svc_display by (lia || exact Hn). reflexivity.
+Qed.
+
+(** the other two host parsers reject the displayed form *)
+Lemma parse_hk_display_other h k : host_wf h = true -> host_named h = true -> k <> hk_of h ->
+  exists e, parse_hk O k (display_host O h) = Err e.
+Proof.
+  intros Hw Hn Hk. destruct h as [a|a|s]; cbn [display_host host_wf host_named hk_of] in *.
+  - pose proof (RT4 a ltac:(lia)) as H4. destruct k; cbn [parse_hk]; [|congruence|].
+    + destruct (ip4_not_svc _ _ H4) as (e & ->). eauto.
+    + destruct (ip6_parse O (ip4_display O a)) as [b|] eqn:E; [|eauto].
+      apply ip_disjoint in E. congruence.
+  - pose proof (RT6 a ltac:(lia)) as H6. destruct k; cbn [parse_hk]; [| |congruence].
+    + destruct (ip6_not_svc _ _ H6) as (e & ->). eauto.
+    + rewrite (ip_disjoint _ _ H6). eauto.
+  - pose proof (parse_svc_display s ltac:(lia) Hn) as Hs. destruct (svc_not_ip _ _ Hs) as (E4 & E6).
+    destruct k; cbn [parse_hk]; [congruence| |]; [rewrite E4|rewrite E6]; eauto.
+Qed.
+
+Lemma parse_hk_exact k s h : parse_hk O k s = Ok h -> norm_host O s = display_host O h /\ hk_of h = k.
+Proof.
+  destruct k; cbn [parse_hk].
+  - destruct (parse_svc s) as [v| |] eqn:E; try discriminate. intros [= <-].
+    unfold norm_host. destruct (svc_not_ip _ _ E) as (-> & ->). split; [apply parse_svc_exact, E|reflexivity].
+  - destruct (ip4_parse O s) as [a|] eqn:E; [|discriminate]. intros [= <-]. unfold norm_host. rewrite E. split; reflexivity.
+  - destruct (ip6_parse O s) as [a|] eqn:E; [|discriminate]. intros [= <-]. unfold norm_host.
+    rewrite (ip_disjoint _ _ E), E. split; reflexivity.
+Qed.
+
+(** *** ScionAddr *)
+Definition iach (c : N) : bool := asnch c || (c =? c_dash).
+Lemma display_ia_chars v : forallb iach (display_ia v) = true.
+Proof.
+  unfold display_ia. rewrite !forallb_app. cbn [forallb].
+  assert (H1 : forallb iach (display_isd (ia_isd v)) = true).
+  { pose proof (display_isd_lhex (ia_isd v)) as H. apply forallb_forall. intros c Hc.
+    rewrite forallb_forall in H. unfold iach, asnch. rewrite (H c Hc). reflexivity. }
+  assert (H2 : forallb iach (display_asn (ia_asn v)) = true).
+  { pose proof (display_asn_chars (ia_asn v)) as H. apply forallb_forall. intros c Hc.
+    rewrite forallb_forall in H. unfold iach. rewrite (H c Hc). reflexivity. }
+  rewrite H1, H2. reflexivity.
+Qed.
+
+Lemma splitn2_display ia t :
+  splitn 2 c_comma (display_ia ia ++ c_comma :: t) = [display_ia ia; t].
+Proof.
+  cbn [splitn]. rewrite split_once_app; [reflexivity|].
+  eapply forallb_notin; [apply display_ia_chars|reflexivity].
+Qed.
+
+Lemma parse_scion_addr_display ia h : ia < 2 ^ 64 -> host_wf h = true -> host_named h = true ->
+  parse_scion_addr O (hk_of h) (display_scion_addr O ia h) = Ok (ia, h).
+Proof.
+  intros Hi Hw Hn. unfold parse_scion_addr, display_scion_addr. cbn [app]. rewrite splitn2_display.
+  rewrite parse_ia_display by exact Hi. cbn [obind]. rewrite parse_hk_display by assumption. reflexivity.
+Qed.
+
+Lemma parse_scion_addr_display_other ia h k : ia < 2 ^ 64 -> host_wf h = true -> host_named h = true ->
+  k <> hk_of h -> exists e, parse_scion_addr O k (display_scion_addr O ia h) = Err e.
+Proof.
+  intros Hi Hw Hn Hk. unfold parse_scion_addr, display_scion_addr. cbn [app]. rewrite splitn2_display.
+  rewrite parse_ia_display by exact Hi. cbn [obind].
+  destruct (parse_hk_display_other h k Hw Hn Hk) as (e & ->). eauto.
+Qed.
+
+Lemma parse_scion_addr_inv k s ia h : parse_scion_addr O k s = Ok (ia, h) ->
+  exists a b, s = a ++ c_comma :: b /\ ~ In c_comma a /\ parse_ia a = Ok ia /\ parse_hk O k b = Ok h.
+Proof.
+  unfold parse_scion_addr. cbn [splitn].
+  destruct (split_once c_comma s) as [[a b]|] eqn:E; [|discriminate].
+  apply split_once_some in E. destruct E as (-> & Na).
+  destruct (parse_ia a) as [i| |] eqn:Ei; try discriminate. cbn [obind].
+  destruct (parse_hk O k b) as [h'| |] eqn:Eh; try discriminate. intros [= <- <-].
+  exists a, b. auto.
+Qed.
+
+Lemma parse_scion_addr_exact k s ia h : parse_scion_addr O k s = Ok (ia, h) ->
+  In (norm_addr O s) (addr_forms O ia h) /\ hk_of h = k.
+Proof.
+  intros H. destruct (parse_scion_addr_inv k s ia h H) as (a & b & -> & Na & Hi & Hh).
+  destruct (parse_hk_exact _ _ _ Hh) as (En & Ek). split; [|exact Ek].
+  unfold norm_addr. rewrite split_once_app by exact Na. rewrite En.
+  unfold addr_forms. apply (in_map (fun i => i ++ [c_comma] ++ display_host O h)).
+  apply parse_ia_exact, Hi.
+Qed.
+
+(** *** socket addresses *)
+Lemma display_socket_addr_eq ia h p :
+  display_socket_addr O ia h p =
+  (c_lbr :: display_scion_addr O ia h ++ [c_rbr]) ++ c_colon :: to_digits 10 p.
+Proof.
+  unfold display_socket_addr, display_scion_addr. cbn [app]. f_equal.
+  rewrite <- !app_assoc. cbn [app]. reflexivity.
+Qed.
+
+Lemma ends_with_snoc c body x : ends_with c (x :: body ++ [c]) = true.
+Proof. unfold ends_with. cbn [rev]. rewrite rev_app_distr. cbn [rev app starts_with]. apply N.eqb_refl. Qed.
+
+Lemma display_scion_addr_head ia h : exists c t, display_scion_addr O ia h = c :: t /\ lhexb c = true.
+Proof.
+  unfold display_scion_addr, display_ia.
+  pose proof (display_isd_lhex (ia_isd ia)) as Hl.
+  pose proof (to_digits_nonempty 10 (ia_isd ia) ltac:(lia)) as Hne. unfold display_isd in *.
+  destruct (to_digits 10 (ia_isd ia)) as [|c t]; [congruence|].
+  cbn [forallb] in Hl. apply andb_true_iff in Hl. destruct Hl as [Hc _].
+  eexists c, _. split; [reflexivity|exact Hc].
+Qed.
+
+Lemma parse_socket_prefix k e ia h p : p <= U16_MAX ->
+  parse_socket_addr O k e (display_socket_addr O ia h p) =
+  match parse_scion_addr O k (display_scion_addr O ia h) with
+  | Ok (ia', h') => Ok (ia', h', p) | Err _ => Err e | Panic q => Panic q end.
+Proof.
+  intros Hp. unfold parse_socket_addr, parse_socket_addr_gen. rewrite display_socket_addr_eq.
+  rewrite rsplit_once_app by (apply (lhex_no _ _ (to_digits_lhex 10 p ltac:(lia) ltac:(lia))); reflexivity).
+  unfold bracket_reject. cbn [starts_with]. rewrite N.eqb_refl, ends_with_snoc. cbn [andb negb].
+  destruct (len (c_lbr :: display_scion_addr O ia h ++ [c_rbr]) =? 0) eqn:E0.
+  { unfold len in E0. cbn [length] in E0. lia. }
+  rewrite slice_brackets.
+  - cbn [obind]. destruct (parse_scion_addr O k (display_scion_addr O ia h)) as [[ia' h']| |]; try reflexivity.
+    rewrite parse_uint_to_digits by (lia || exact Hp). reflexivity.
+  - destruct (display_scion_addr_head ia h) as (c & t & -> & Hc). unfold lhexb in Hc. lia.
+Qed.
+
+Lemma parse_socket_addr_display ia h p e : ia < 2 ^ 64 -> host_wf h = true -> host_named h = true ->
+  p <= U16_MAX -> parse_socket_addr O (hk_of h) e (display_socket_addr O ia h p) = Ok (ia, h, p).
+Proof.
+  intros Hi Hw Hn Hp. rewrite parse_socket_prefix by exact Hp.
+  rewrite parse_scion_addr_display by assumption. reflexivity.
+Qed.
+
+Lemma parse_socket_addr_display_other ia h p e k : ia < 2 ^ 64 -> host_wf h = true -> host_named h = true ->
+  p <= U16_MAX -> k <> hk_of h -> parse_socket_addr O k e (display_socket_addr O ia h p) = Err e.
+Proof.
+  intros Hi Hw Hn Hp Hk. rewrite parse_socket_prefix by exact Hp.
+  destruct (parse_scion_addr_display_other ia h k Hi Hw Hn Hk) as (e' & ->). reflexivity.
+Qed.
+
+Lemma parse_socket_addr_exact k e s ia h p : parse_socket_addr O k e s = Ok (ia, h, p) ->
+  In (norm_sock O s) (sock_forms O ia h p) /\ hk_of h = k.
+Proof.
+  unfold parse_socket_addr, parse_socket_addr_gen.
+  destruct (rsplit_once c_colon s) as [[a port]|] eqn:Er; [|discriminate].
+  apply rsplit_once_some in Er. destruct Er as (-> & Np).
+  unfold bracket_reject. destruct (starts_with c_lbr a && ends_with c_rbr a) eqn:Eb; [|discriminate].
+  cbn [negb]. destruct (brackets_inv a Eb) as (body & ->).
+  destruct (len (c_lbr :: body ++ [c_rbr]) =? 0); [discriminate|].
+  destruct (str_slice (c_lbr :: body ++ [c_rbr]) 1 (len (c_lbr :: body ++ [c_rbr]) - 1)) as [inner| |] eqn:Es;
+    try discriminate.
+  apply slice_brackets_val in Es. subst inner. cbn [obind].
+  destruct (parse_scion_addr O k body) as [[ia' h']| |] eqn:Ea; try discriminate.
+  destruct (parse_uint 10 U16_MAX port) as [p'|] eqn:Ep; [|discriminate]. intros [= -> -> ->].
+  destruct (parse_scion_addr_exact _ _ _ _ Ea) as (Hin & Hk). split; [|exact Hk].
+  unfold norm_sock. rewrite rsplit_once_app by exact Np.
+  rewrite rev_app_distr. cbn [rev app]. unfold c_lbr at 1, c_rbr at 1. rewrite !N.eqb_refl. cbn [andb].
+  rewrite rev_involutive, (parse_uint_norm_dec _ _ _ Ep).
+  unfold sock_forms. apply (in_map (fun x => [c_lbr] ++ x ++ [c_rbr; c_colon] ++ to_digits 10 p)). exact Hin.
+Qed.
+
+(** *** the enum types: first matching alternative *)
+Lemma hk_cases h : (hk_of h = KSvc /\ exists s, h = HS s) \/ (hk_of h = KV4 /\ exists a, h = H4 a) \/ (hk_of h = KV6 /\ exists a, h = H6 a).
+Proof. destruct h; cbn; eauto 6. Qed.
+
+Lemma parse_addr_any_display ia h : ia < 2 ^ 64 -> host_wf h = true -> host_named h = true ->
+  parse_addr_any O (display_scion_addr O ia h) = Ok (ia, h).
+Proof.
+  intros Hi Hw Hn. unfold parse_addr_any.
+  pose proof (parse_scion_addr_display ia h Hi Hw Hn) as Hd.
+  destruct h as [a|a|s]; cbn [hk_of] in Hd.
+  - destruct (parse_scion_addr_display_other ia (H4 a) KSvc Hi Hw Hn ltac:(discriminate)) as (e & ->).
+    cbn [first_ok]. rewrite Hd. reflexivity.
+  - destruct (parse_scion_addr_display_other ia (H6 a) KSvc Hi Hw Hn ltac:(discriminate)) as (e & ->).
+    destruct (parse_scion_addr_display_other ia (H6 a) KV4 Hi Hw Hn ltac:(discriminate)) as (e' & ->).
+    cbn [first_ok]. rewrite Hd. reflexivity.
+  - cbn [first_ok]. rewrite Hd. reflexivity.
+Qed.
+
+Lemma parse_addr_ip_display ia h : ia < 2 ^ 64 -> host_wf h = true -> hk_of h <> KSvc ->
+  parse_addr_ip O (display_scion_addr O ia h) = Ok (ia, h).
+Proof.
+  intros Hi Hw Hk. unfold parse_addr_ip.
+  assert (Hn : host_named h = true) by (destruct h; [reflexivity|reflexivity|cbn in Hk; congruence]).
+  pose proof (parse_scion_addr_display ia h Hi Hw Hn) as Hd.
+  destruct h as [a|a|s]; cbn [hk_of] in Hd, Hk; [| |congruence].
+  - cbn [first_ok]. rewrite Hd. reflexivity.
+  - destruct (parse_scion_addr_display_other ia (H6 a) KV4 Hi Hw Hn ltac:(discriminate)) as (e' & ->).
+    cbn [first_ok]. rewrite Hd. reflexivity.
+Qed.
+
+Lemma parse_sock_any_display ia h p : ia < 2 ^ 64 -> host_wf h = true -> host_named h = true ->
+  p <= U16_MAX -> parse_sock_any O (display_socket_addr O ia h p) = Ok (ia, h, p).
+Proof.
+  intros Hi Hw Hn Hp. unfold parse_sock_any, parse_sock_k.
+  pose proof (fun e => parse_socket_addr_display ia h p e Hi Hw Hn Hp) as Hd.
+  pose proof (fun e k => parse_socket_addr_display_other ia h p e k Hi Hw Hn Hp) as Ho.
+  destruct h as [a|a|s]; cbn [hk_of] in Hd, Ho.
+  - rewrite (Ho _ KSvc) by discriminate. cbn [first_ok]. rewrite Hd. reflexivity.
+  - rewrite (Ho _ KSvc), (Ho _ KV4) by discriminate. cbn [first_ok]. rewrite Hd. reflexivity.
+  - cbn [first_ok]. rewrite Hd. reflexivity.
+Qed.
+
+Lemma parse_sock_ip_display ia h p : ia < 2 ^ 64 -> host_wf h = true -> hk_of h <> KSvc ->
+  p <= U16_MAX -> parse_sock_ip O (display_socket_addr O ia h p) = Ok (ia, h, p).
+Proof.
+  intros Hi Hw Hk Hp. unfold parse_sock_ip, parse_sock_k.
+  assert (Hn : host_named h = true) by (destruct h; [reflexivity|reflexivity|cbn in Hk; congruence]).
+  pose proof (fun e => parse_socket_addr_display ia h p e Hi Hw Hn Hp) as Hd.
+  pose proof (fun e k => parse_socket_addr_display_other ia h p e k Hi Hw Hn Hp) as Ho.
+  destruct h as [a|a|s]; cbn [hk_of] in Hd, Ho, Hk; [| |congruence].
+  - cbn [first_ok]. rewrite Hd. reflexivity.
+  - rewrite (Ho _ KV4) by discriminate. cbn [first_ok]. rewrite Hd. reflexivity.
+Qed.
+
+Lemma first_ok_exact {A} (P : A -> Prop) alts e v :
+  Forall (fun a => forall x, a = Ok x -> P x) alts -> @first_ok A alts e = Ok v -> P v.
+Proof.
+  intros Hf H. apply first_ok_in in H. rewrite Forall_forall in Hf. exact (Hf _ H _ eq_refl).
+Qed.
+End WithIp.
+
+(** * the fifteen types at once *)
+Lemma omap_ok {A B} (f : A -> B) (o : res A) v : omap f o = Ok v -> exists x, o = Ok x /\ v = f x.
+Proof. destruct o; try discriminate. intros [= <-]. eauto. Qed.
+
+Section Kinds.
+Context (O : iporacle).
+Hypothesis RT4 : forall a, a < 2 ^ 32 -> ip4_parse O (ip4_display O a) = Some a.
+Hypothesis RT6 : forall a, a < 2 ^ 128 -> ip6_parse O (ip6_display O a) = Some a.
+Hypothesis CH4 : forall s a, ip4_parse O s = Some a -> forallb ip4ch s = true.
+Hypothesis CH6 : forall s a, ip6_parse O s = Some a -> forallb ip6ch s = true /\ has_colon s = true.
+
+Lemma kind_display_parse k v d :
+  val_wf k v = true -> val_named k v = true -> display_kind O k v = Some d -> parse_kind O k d = Ok v.
+Proof.
+  intros Hw Hn Hd. destruct v as [n|h|ia h|ia h p]; cbn [display_kind val_wf val_named] in *.
+  - unfold parse_kind, parse_kind_gen.
+    destruct (k =? K_ISD) eqn:E0.
+    { injection Hd as <-. rewrite parse_isd_display; [reflexivity|]. unfold U16_MAX. change (2 ^ 16) with 65536 in Hw. lia. }
+    destruct (k =? K_ASN) eqn:E1.
+    { injection Hd as <-. rewrite parse_asn_display; [reflexivity|]. unfold ASN_MAX. change (2 ^ 48) with 281474976710656 in Hw. lia. }
+    destruct (k =? K_IA) eqn:E2.
+    { injection Hd as <-. rewrite parse_ia_display; [reflexivity|]. lia. }
+    destruct (k =? K_SVC) eqn:E3; [|discriminate].
+    injection Hd as <-. rewrite parse_svc_display; [reflexivity|lia|exact Hn].
+  - destruct (k =? K_HOST) eqn:E; [|discriminate]. apply N.eqb_eq in E. subst k. injection Hd as <-.
+    change (parse_kind O K_HOST (display_host O h)) with (omap VHost (parse_host O (display_host O h))).
+    rewrite (parse_host_display O RT4 RT6 CH4 CH6) by assumption. reflexivity.
+  - destruct ((5 <=? k) && (k <=? 9) && host_fits k h) eqn:E; [|discriminate]. injection Hd as <-.
+    apply andb_true_iff in Hw. destruct Hw as [Hi Hh].
+    assert (Hk : k = 5 \/ k = 6 \/ k = 7 \/ k = 8 \/ k = 9) by lia.
+    destruct Hk as [->|[->|[->|[->| ->]]]].
+    + change (parse_kind O 5 (display_scion_addr O ia h)) with (omap vaddr (parse_scion_addr O KSvc (display_scion_addr O ia h))).
+      destruct h as [a|a|s]; try discriminate.
+      pose proof (parse_scion_addr_display O RT4 RT6 CH4 CH6 ia (HS s)) as X; cbn [hk_of] in X; rewrite X by (assumption || lia). reflexivity.
+    + change (parse_kind O 6 (display_scion_addr O ia h)) with (omap vaddr (parse_scion_addr O KV4 (display_scion_addr O ia h))).
+      destruct h as [a|a|s]; try discriminate.
+      pose proof (parse_scion_addr_display O RT4 RT6 CH4 CH6 ia (H4 a)) as X; cbn [hk_of] in X; rewrite X by (assumption || lia). reflexivity.
+    + change (parse_kind O 7 (display_scion_addr O ia h)) with (omap vaddr (parse_scion_addr O KV6 (display_scion_addr O ia h))).
+      destruct h as [a|a|s]; try discriminate.
+      pose proof (parse_scion_addr_display O RT4 RT6 CH4 CH6 ia (H6 a)) as X; cbn [hk_of] in X; rewrite X by (assumption || lia). reflexivity.
+    + change (parse_kind O 8 (display_scion_addr O ia h)) with (omap vaddr (parse_addr_any O (display_scion_addr O ia h))).
+      rewrite (parse_addr_any_display O RT4 RT6 CH4 CH6) by (assumption || lia). reflexivity.
+    + change (parse_kind O 9 (display_scion_addr O ia h)) with (omap vaddr (parse_addr_ip O (display_scion_addr O ia h))).
+      rewrite (parse_addr_ip_display O RT4 RT6 CH4 CH6); [reflexivity|lia|assumption|].
+      destruct h; discriminate.
+  - destruct ((10 <=? k) && (k <=? 14) && host_fits k h) eqn:E; [|discriminate]. injection Hd as <-.
+    apply andb_true_iff in Hw. destruct Hw as [Hw Hp]. apply andb_true_iff in Hw. destruct Hw as [Hi Hh].
+    assert (Hp' : p <= U16_MAX) by (unfold U16_MAX; change (2 ^ 16) with 65536 in Hp; lia).
+    assert (Hk : k = 10 \/ k = 11 \/ k = 12 \/ k = 13 \/ k = 14) by lia.
+    destruct Hk as [->|[->|[->|[->| ->]]]].
+    + change (parse_kind O 10 (display_socket_addr O ia h p)) with (omap vsock (parse_socket_addr O KSvc ESocketSvc (display_socket_addr O ia h p))).
+      destruct h as [a|a|s]; try discriminate.
+      pose proof (parse_socket_addr_display O RT4 RT6 CH4 CH6 ia (HS s) p) as X; cbn [hk_of] in X; rewrite X by (assumption || lia). reflexivity.
+    + change (parse_kind O 11 (display_socket_addr O ia h p)) with (omap vsock (parse_socket_addr O KV4 ESocketV4 (display_socket_addr O ia h p))).
+      destruct h as [a|a|s]; try discriminate.
+      pose proof (parse_socket_addr_display O RT4 RT6 CH4 CH6 ia (H4 a) p) as X; cbn [hk_of] in X; rewrite X by (assumption || lia). reflexivity.
+    + change (parse_kind O 12 (display_socket_addr O ia h p)) with (omap vsock (parse_socket_addr O KV6 ESocketV6 (display_socket_addr O ia h p))).
+      destruct h as [a|a|s]; try discriminate.
+      pose proof (parse_socket_addr_display O RT4 RT6 CH4 CH6 ia (H6 a) p) as X; cbn [hk_of] in X; rewrite X by (assumption || lia). reflexivity.
+    + change (parse_kind O 13 (display_socket_addr O ia h p)) with (omap vsock (parse_sock_any O (display_socket_addr O ia h p))).
+      rewrite (parse_sock_any_display O RT4 RT6 CH4 CH6) by (assumption || lia). reflexivity.
+    + change (parse_kind O 14 (display_socket_addr O ia h p)) with (omap vsock (parse_sock_ip O (display_socket_addr O ia h p))).
+      rewrite (parse_sock_ip_display O RT4 RT6 CH4 CH6); [reflexivity|lia|assumption| |exact Hp'].
+      destruct h; discriminate.
+Qed.
+
+Lemma kind_parse_exact k s v : parse_kind O k s = Ok v -> In (norm O k s) (forms O k v).
+Proof.
+  unfold parse_kind, parse_kind_gen, norm.
+  destruct (k =? K_ISD) eqn:E0.
+  { intros H. apply omap_ok in H. destruct H as (x & H & ->). cbn [forms display_kind]. rewrite E0.
+    replace (k =? K_ASN) with false by (unfold K_ISD, K_ASN in *; lia). replace (k =? K_IA) with false by (unfold K_ISD, K_IA in *; lia).
+    left. symmetry. apply parse_isd_exact, H. }
+  destruct (k =? K_ASN) eqn:E1.
+  { intros H. apply omap_ok in H. destruct H as (x & H & ->). cbn [forms]. rewrite E1. apply parse_asn_exact, H. }
+  destruct (k =? K_IA) eqn:E2.
+  { intros H. apply omap_ok in H. destruct H as (x & H & ->). cbn [forms]. rewrite E1, E2. apply parse_ia_exact, H. }
+  destruct (k =? K_SVC) eqn:E3.
+  { intros H. apply omap_ok in H. destruct H as (x & H & ->). cbn [forms display_kind]. rewrite E0, E1, E2, E3.
+    left. symmetry. apply parse_svc_exact, H. }
+  destruct (k =? K_HOST) eqn:E4.
+  { intros H. apply omap_ok in H. destruct H as (x & H & ->). cbn [forms]. left. symmetry.
+    apply parse_host_exact, H. }
+  assert (Ha : forall hk w, omap vaddr (parse_scion_addr O hk s) = Ok w -> In (norm_addr O s) (forms O k w)).
+  { intros hk w H. apply omap_ok in H. destruct H as ([ia h] & H & ->). cbn [forms vaddr fst snd].
+    apply (parse_scion_addr_exact O CH4 CH6) in H. apply H. }
+  assert (Hs : forall hk e w, omap vsock (parse_socket_addr O hk e s) = Ok w -> In (norm_sock O s) (forms O k w)).
+  { intros hk e w H. apply omap_ok in H. destruct H as ([[ia h] p] & H & ->). cbn [forms vsock fst snd].
+    apply (parse_socket_addr_exact O CH4 CH6) in H. apply H. }
+  destruct (k =? K_ADDR_SVC) eqn:E5. { replace (k <=? 9) with true by (unfold K_ADDR_SVC in *; lia). apply Ha. }
+  destruct (k =? K_ADDR_V4) eqn:E6. { replace (k <=? 9) with true by (unfold K_ADDR_V4 in *; lia). apply Ha. }
+  destruct (k =? K_ADDR_V6) eqn:E7. { replace (k <=? 9) with true by (unfold K_ADDR_V6 in *; lia). apply Ha. }
+  destruct (k =? K_ADDR) eqn:E8.
+  { replace (k <=? 9) with true by (unfold K_ADDR in *; lia). intros H. apply omap_ok in H. destruct H as (x & H & ->).
+    unfold parse_addr_any in H. revert H. apply (first_ok_exact (fun x => In (norm_addr O s) (forms O k (vaddr x)))).
+    repeat (apply Forall_cons; [intros y Hy; apply (Ha _ _ (f_equal (omap vaddr) Hy))|]); apply Forall_nil. }
+  destruct (k =? K_IPADDR) eqn:E9.
+  { replace (k <=? 9) with true by (unfold K_IPADDR in *; lia). intros H. apply omap_ok in H. destruct H as (x & H & ->).
+    unfold parse_addr_ip in H. revert H. apply (first_ok_exact (fun x => In (norm_addr O s) (forms O k (vaddr x)))).
+    repeat (apply Forall_cons; [intros y Hy; apply (Ha _ _ (f_equal (omap vaddr) Hy))|]); apply Forall_nil. }
+  assert (Hgt : (k <=? 9) = false).
+  { unfold K_ISD, K_ASN, K_IA, K_SVC, K_HOST, K_ADDR_SVC, K_ADDR_V4, K_ADDR_V6, K_ADDR, K_IPADDR in *. lia. }
+  rewrite Hgt.
+  destruct (k =? K_SOCK_SVC). { apply Hs. }
+  destruct (k =? K_SOCK_V4). { apply Hs. }
+  destruct (k =? K_SOCK_V6). { apply Hs. }
+  destruct (k =? K_SOCK).
+  { intros H. apply omap_ok in H. destruct H as (x & H & ->).
+    revert H. apply (first_ok_exact (fun x => In (norm_sock O s) (forms O k (vsock x)))).
+    repeat (apply Forall_cons; [intros y Hy; apply (Hs _ _ _ (f_equal (omap vsock) Hy))|]); apply Forall_nil. }
+  intros H. apply omap_ok in H. destruct H as (x & H & ->).
+  revert H. apply (first_ok_exact (fun x => In (norm_sock O s) (forms O k (vsock x)))).
+  repeat (apply Forall_cons; [intros y Hy; apply (Hs _ _ _ (f_equal (omap vsock) Hy))|]); apply Forall_nil.
+Qed.
+End Kinds.
+
+(** * the assumptions on std's IP text are satisfiable *)
+Lemma to_digits_dec v : forallb decb (to_digits 10 v) = true.
+Proof.
+  unfold to_digits. destruct (v =? 0); [reflexivity|].
+  apply forallb_forall. intros c Hc. apply in_map_iff in Hc. destruct Hc as (d & <- & Hd).
+  apply in_rev in Hd. pose proof (le_digits_lt 10 (S (N.to_nat (N.log2 v))) v ltac:(lia)) as Hf.
+  rewrite Forall_forall in Hf. specialize (Hf d Hd). unfold decb, digit_char.
+  replace (d <? 10) with true by lia. lia.
+Qed.
+
+Lemma toy_oracle_std_like : std_like toy_oracle.
+Proof.
+  unfold std_like, toy_oracle. cbn [ip4_parse ip6_parse ip4_display ip6_display].
+  split; [|split; [|split]].
+  - intros a Ha. rewrite rev_app_distr. cbn [rev app]. rewrite rev_involutive.
+    change (46 =? 46) with true. rewrite to_digits_dec. cbn [andb].
+    apply parse_uint_to_digits; [lia|lia|]. change (2 ^ 32) with 4294967296 in *. lia.
+  - intros a Ha. rewrite N.eqb_refl.
+    pose proof (to_digits_lhex 16 a ltac:(lia) ltac:(lia)) as Hl. unfold lhexb in Hl. unfold lhexb'. rewrite Hl.
+    cbn [andb]. apply parse_uint_to_digits; [lia|lia|].
+    change (2 ^ 128) with 340282366920938463463374607431768211456 in *. lia.
+  - intros s a. destruct (rev s) as [|d r] eqn:E; [discriminate|].
+    destruct ((d =? 46) && forallb decb (rev r)) eqn:Ec; [|discriminate]. intros _.
+    apply andb_true_iff in Ec. destruct Ec as [Ed Hr]. apply N.eqb_eq in Ed. subst d.
+    apply (f_equal (@rev N)) in E. rewrite rev_involutive in E. cbn [rev] in E. subst s.
+    rewrite forallb_app. cbn [forallb]. change (ip4ch 46) with true. rewrite andb_true_r.
+    apply forallb_forall. intros c Hc. rewrite forallb_forall in Hr. specialize (Hr c Hc).
+    unfold decb in Hr. unfold ip4ch. rewrite Hr. reflexivity.
+  - intros s a. destruct s as [|c t]; [discriminate|].
+    destruct ((c =? c_colon) && forallb lhexb' t) eqn:Ec; [|discriminate]. intros _.
+    apply andb_true_iff in Ec. destruct Ec as [Ed Hr]. apply N.eqb_eq in Ed. subst c. split.
+    + cbn [forallb]. change (ip6ch c_colon) with true. cbn [andb].
+      apply forallb_forall. intros c Hc. rewrite forallb_forall in Hr. specialize (Hr c Hc).
+      unfold lhexb' in Hr. unfold ip6ch, c_colon. lia.
+    + reflexivity.
+Qed.
